@@ -304,6 +304,8 @@ def main(a):
                  "impl_exit_class": o[1], "impl_stderr": o[2]})
     for fid, n in known_cells.items():
         v.known_finding(listed[fid]["what"] + " [%d generated programs]" % n)
+    if not a.replay:
+        v.replay_witnesses(exe, list(listed.values()), already=set(known_cells))
     if strict:
         v.violation("the mechanism model deviates from its own specification on %d generated skeletons" % strict,
                     {"theorem": "CbProps.C06.run_refines_spec"}, no_input=True)
